@@ -43,7 +43,24 @@ def final_states(c, name, **kw):
     return {canon(st["ex"], st["ct"]) for st in tlc.printed_json(r)}
 
 
-def snapshot(root, keymap, code_texts):
+def final_states_and_steps(c, name, **kw):
+    """final states (as final_states) and the step relation of the model: {(state, next state)} over the transitions that change
+    the directory, owners of temporary files dropped"""
+    import json
+    path = cfg("fs_" + name, invariants=(), **kw)
+    txt = open(path).read().replace("CHECK_DEADLOCK", "CONSTRAINT EmitFinal\nACTION_CONSTRAINT StepRel\nPOSTCONDITION PrintRel\nCHECK_DEADLOCK")
+    open(path, "w").write(txt)
+    r = tlc.run("MCFS", path, workers=1, timeout=900, heap="6g")
+    c.add_tlc("CacheFS-final-states+steps[%s]" % name, r)
+    finals = set(); rel = set()
+    for st in tlc.printed_json(r):
+        if isinstance(st, dict): finals.add(canon(st["ex"], st["ct"]))
+        else:
+            for a, b in st: rel.add((canon(a["ex"], a["ct"]), canon(b["ex"], b["ct"])))
+    return finals, rel
+
+
+def snapshot(root, keymap, code_texts, owners=True, memo=None):
     """classify the function directory of a real cache in the vocabulary of CacheFS.tla (arguments of f -> model keys)"""
     import os, json, joblib
     fdir = os.path.join(root, "joblib", "cachedmod", "f")
@@ -56,34 +73,41 @@ def snapshot(root, keymap, code_texts):
         v = [k for k, t in code_texts.items() if t == txt]
         ct.append([["F", "code"], ["code", v[0]] if v else ["empty"] if not txt else ["partial"]])
     byname = {joblib.hash({"x": a, "y": 0}): kk for a, kk in keymap.items()}
-    for name in os.listdir(fdir):
+    for name in sorted(os.listdir(fdir)):
         d = os.path.join(fdir, name)
         if not os.path.isdir(d): continue
         key = byname.get(name, "?" + name[:4])
         ex.append(["F", key])
         for fn in os.listdir(d):
             fp = os.path.join(d, fn)
-            if fn.startswith("output.pkl"):
-                try:
-                    val = joblib.load(fp); cls = ["val", int(val[0][1:]), keymap[val[1]]]
-                except Exception:
-                    cls = ["partial"]
-            elif fn.startswith("metadata.json"):
-                try:
-                    json.load(open(fp)); cls = ["meta"]
-                except Exception:
-                    cls = ["partial"]
+            if not fn.startswith(("output.pkl", "metadata.json")): continue
+            try: data = open(fp, "rb").read()
+            except OSError: continue                    # (removed while we were looking)
+            mk = (fn[:6], data)
+            if memo is not None and mk in memo: cls = memo[mk]
             else:
-                continue
+                if fn.startswith("output.pkl"):
+                    try:
+                        import io
+                        val = joblib.load(io.BytesIO(data)); cls = ["val", int(val[0][1:]), keymap[val[1]]]
+                    except Exception:
+                        cls = ["partial"]
+                else:
+                    try:
+                        json.loads(data.decode()); cls = ["meta"]
+                    except Exception:
+                        cls = ["partial"]
+                if memo is not None: memo[mk] = cls
             kind = "out" if fn == "output.pkl" else "metaf" if fn == "metadata.json" else "tmpo" if fn.startswith("output.pkl") else "tmpm"
-            pth = ["F", key, kind] + ([1] if kind.startswith("tmp") else [])
+            pth = ["F", key, kind + ("1" if kind.startswith("tmp") and owners else "")]
             ex.append(pth); ct.append([pth, cls])
     return canon(ex, ct)
 
 
 def canon(ex, ct):
     import json
-    return json.dumps([sorted(["/".join(map(str, x)) for x in ex]), sorted(["/".join(map(str, x)), list(v)] for x, v in ct)])
+    cts = sorted({json.dumps(["/".join(map(str, x)), list(v)]) for x, v in ct})
+    return json.dumps([sorted({"/".join(map(str, x)) for x in ex}), [json.loads(t) for t in cts]])
 
 
 def run(c, name, must_hold=True, **kw):
